@@ -21,7 +21,7 @@ CHECKS = {
         level="exploration",
         engine="E1-enum",
         technique="bounded-exhaustive enumeration of inheritance chains x per-level block assignments x extends forms against an independent block resolver; enumerated include/import/error cases under a wall cap",
-        text="Every chain of 1..3 (thorough 4) templates in which each non-root template gives each block of {a, b nested in a, c} one of {absent, override, super() before, override around super(), super() twice} (125 assignments per level; 3.1e4 chains of length 3 quick, 3.9e6 of length 4 thorough), with and without block c in the root, with the most derived template extending by static name, by a name from the context, inside a taken if and inside a not-taken if, is rendered - directly and, for chains up to length 2 (thorough 3), in 8 further ways (included at top level, in a child block, in a macro called twice, in a loop body; include captured by a set block in a plain host and at the top level of an extending host, there also below a filter block and below a call block) - and compared with a 60-line resolver (most derived definition wins, super() moves a per-block cursor to the next definition, nested block tags render the most derived definition, text outside blocks of extending templates is discarded, super() without a parent fails). 50 hand-written cases cover include placements (top level, loop, macro, block, with, child block), name forms (string, list with missing entries, missing with/without ignore missing, dynamic, non-string), what an import exposes, and the error family (extends/include cycles of length 1..3, double extends, missing parent, super() without parent or outside a block, required blocks, self.block()), each under a 10 s wall cap so a hang counts as a failure.",
+        text="Every chain of 1..3 (thorough 4) templates in which each non-root template gives each block of {a, b nested in a, c} one of {absent, override, super() before, override around super(), super() twice} (125 assignments per level; 3.1e4 chains of length 3 quick, 3.9e6 of length 4 thorough), with and without block c in the root, with the most derived template extending by static name, by a name from the context, inside a taken if and inside a not-taken if, is rendered - directly and, for chains up to length 2 (thorough 3), in 8 further ways (included at top level, in a child block, in a macro called twice, in a loop body; include captured by a set block in a plain host and at the top level of an extending host, there also below a filter block and below a call block) - and compared with a 60-line resolver (most derived definition wins, super() moves a per-block cursor to the next definition, nested block tags render the most derived definition, text outside blocks of extending templates is discarded, super() without a parent fails). 50 hand-written cases cover include placements (top level, loop, macro, block, with, child block), name forms (string, list with missing entries, missing with/without ignore missing, dynamic, non-string), what an import exposes, and the error family (extends/include cycles of length 1..3, double extends, missing parent, super() without parent or outside a block, required blocks, self.block()), each under a 10 s wall cap so a hang counts as a failure; every fixed case that renders is also included 120 times from one host render and must give its output 120 times (nothing a composition charges per render may be left behind).",
         note="The resolver is the trusted base for chains; the fixed cases carry hand-written expectations taken from the documentation. One expectation was corrected during calibration (include of an empty list renders nothing; the property does not demand an error there).",
         design_ref="2/C06",
     ),
@@ -45,7 +45,7 @@ CHECKS = {
         level="model_checking",
         engine="E4-sched",
         technique="stateless preemption-bounded DFS over all thread schedules of the real auto-reloader code (mechanically source-swapped onto shuttle's scheduled Mutex), bound iterated 0..k",
-        text="The real minijinja-autoreload source is compiled into the harness with std::sync replaced by shuttle::sync by the build script, so every Mutex operation of the code under test is a scheduling point, however the source is edited. A depth-first explorer of my own (Scheduler implementation on shuttle's runtime) enumerates every schedule with at most k preemptions, k iterated from 0: quick = 60 configurations (1-2 requesters x 1-2 acquirers, one acquirer acquiring twice; rebuild and fast-reload mode; plain / request issued from inside the creator / freshness callback; starting from an empty cache or from an environment the main thread acquired before) with 3/2/1 preemptions for 2/3/4 threads, 1.0e6 complete schedules; thorough = the same at 3 preemptions plus 3 requesters/acquirers at 2 preemptions, 1e8+ schedules. Oracle on every execution: a requester bumps a version then calls request_reload() then publishes that it returned; every acquire_env() started after that must hand out an environment stamped (creator entry, or template load time in fast mode) with at least that version; the environment identity and stamp do not change while a guard is held; creator calls <= 1 + requests (+ creator-issued requests + freshness-callback trues), exactly 1 in fast mode; no deadlock (shuttle reports it). A failing schedule is replayed twice for determinism and written as a task-id list; divergence while replaying a prefix is a machinery error.",
+        text="The real minijinja-autoreload source is compiled into the harness with std::sync replaced by shuttle::sync by the build script, so every Mutex operation of the code under test is a scheduling point, however the source is edited. A depth-first explorer of my own (Scheduler implementation on shuttle's runtime) enumerates every schedule with at most k preemptions, k iterated from 0: quick = 60 configurations (1-2 requesters x 1-2 acquirers, one acquirer acquiring twice; rebuild and fast-reload mode; plain / request issued from inside the creator / freshness callback; starting from an empty cache or from an environment the main thread acquired before) with 3/2/1 preemptions for 2/3/4 threads, 1.0e6 complete schedules; thorough = the same at 3 preemptions plus 3 requesters/acquirers at 2 preemptions, 1e8+ schedules. Oracle on every execution: a requester bumps a version then calls request_reload() then publishes that it returned; every acquire_env() started after that must hand out an environment stamped (creator entry, or template load time in fast mode) with at least that version; the environment identity and stamp do not change while a guard is held; creator calls <= 1 + requests (+ creator-issued requests + freshness-callback trues), exactly 1 in fast mode; no deadlock (shuttle reports it). A failing schedule is replayed twice for determinism and written as a task-id list; divergence while replaying a prefix is a machinery error. Thorough: bound-major order (every configuration finishes bound b before any starts b + 1) under an overall deadline (VERIF_SCHED_TOTAL_S, default 30 min): last measured 82 configurations, 3.6e8 schedules, 59 configurations completed to their target bound, 23 stopped by the deadline at a lower bound (listed in the evidence file; exhaustive=false is reported then).",
         note="shuttle treats every atomic as sequentially consistent and does not interleave Arc/Weak reference counting. The notify file-system watcher thread is real OS nondeterminism and is not driven; its callback uses the same flag protocol as request_reload. Creator failure is outside the quantifier.",
         design_ref="2/C20",
     ),
@@ -53,7 +53,7 @@ CHECKS = {
         level="model_checking",
         engine="E2-bcmc",
         technique="explicit-state model checking of compiled instruction streams under an abstract VM (all control-flow paths), bound to the real VM by trace conformance through verif_hooks probes",
-        text="For every generated program (complete depth-1 space with blocks, includes, macros, call blocks, set/filter/autoescape/with blocks, recursive and filtered loops and break/continue, in three wrappings: plain with sentinel text, as child block under extends, as included template; a third of the depth-2 space quick / all of it plus a stride of depth 3 thorough; 11 hand-written shapes; every way of leaving a loop by break / continue, unconditional and conditional, through every sequence of 1..2 (thorough 3) nested scoped constructs out of {with, set block, filter block, autoescape on, autoescape off, if, call block}) each instruction stream and each entry point (main, every block, every macro body) is explored exhaustively by BFS over abstract states (pc, operand stack of Opaque|Int, frame kinds with loop iteration count and recursion return, capture stack, auto-escape depth, extends-pending, recursion depth) with every conditional jump, short-circuit jump and Iterate taken both ways; invariants on every state/transition: frame/capture/escape pops hit something the same evaluation pushed and of the right kind, no operand pop below the entry height, everything balanced at every end, every reachable state can reach an end. The model is bound to the code: each program is rendered under 3 contexts with probes recording every executed instruction, and every concrete trace must be a path of the explored abstract graph (same pc, operand height, frame kinds, capture and auto-escape depth at every step); real evaluations must also leave frames, captures and the auto-escape mode as they found them and a sentinel after the outermost construct must reach the output.",
+        text="For every generated program (complete depth-1 space with blocks, includes, macros, call blocks, set/filter/autoescape/with blocks, recursive and filtered loops and break/continue, in three wrappings: plain with sentinel text, as child block under extends, as included template; a third of the depth-2 space quick / all of it plus a stride of depth 3 thorough; 11 hand-written shapes; a scope-contents family (6 scope-opening constructs alone and in pairs x 10 carriers that open no scope of their own - if/else arms, else bodies of empty and fully filtered loops, filter, autoescape, combinations - x 5 ways of binding a shadowing and a new name: afterwards the shadowed name must be back and the new one gone); every way of leaving a loop by break / continue, unconditional and conditional, through every sequence of 1..2 (thorough 3) nested scoped constructs out of {with, set block, filter block, autoescape on, autoescape off, if, call block}) each instruction stream and each entry point (main, every block, every macro body) is explored exhaustively by BFS over abstract states (pc, operand stack of Opaque|Int, frame kinds with loop iteration count and recursion return, capture stack, auto-escape depth, extends-pending, recursion depth) with every conditional jump, short-circuit jump and Iterate taken both ways; invariants on every state/transition: frame/capture/escape pops hit something the same evaluation pushed and of the right kind, no operand pop below the entry height, everything balanced at every end, every reachable state can reach an end. The model is bound to the code: each program is rendered under 3 contexts with probes recording every executed instruction, and every concrete trace must be a path of the explored abstract graph (same pc, operand height, frame kinds, capture and auto-escape depth at every step); real evaluations must also leave frames, captures and the auto-escape mode as they found them and a sentinel after the outermost construct must reach the output.",
         note="Bounds: loops iterate 0..2 times, loop recursion nests <= 3. Include/CallBlock/FastSuper/macro calls are atomic in the caller and each callee stream is explored on its own. A conformance failure is a machinery error (key MACHINERY:conformance). `do` and *args calls are outside the alphabet.",
         design_ref="2/C05",
     ),
@@ -69,7 +69,7 @@ CHECKS = {
         level="exploration",
         engine="E5-crash",
         technique="bounded-exhaustive enumeration of ranked input spaces with a process-level crash oracle in supervised child processes (rlimits, panic capture, death attribution)",
-        text="Six ranked families are enumerated completely inside their bounds, each case = load + render + formatting the error in five forms, in child processes under RLIMIT_AS with panics caught and aborts/signals attributed to the exact case: every string of up to 4 (thorough 5) fragments over a 24-fragment delimiter/quote/escape alphabet as template and as expression; every sequence of up to 3 (4) tags over 38 tags; every built-in and contrib filter/test/method x 8 receivers and every function x every argument tuple of arity <= 2 (3) over a 14-value boundary alphabet; 12 operators and 11 size-taking built-ins over all pairs of the edge value alphabet; 31 chain/nesting shapes at depths 150/151/2000/20000/200000 on the main thread and a 2 MiB thread in an opt-level-0 build (thorough also checked-release); every program of the depth-2 generator space with loop controls; 22 run-time value chains (a loop applies one lazy wrapping step - concatenation on either side, chain, slice, reverse, map, select, unique, dict merge, string and tuple concatenation, batch, zip - to an accumulator 33 / 1000 / 30 000 times, then the result is measured, iterated, compared, printed and dropped) in both builds. 1.3e6 cases quick.",
+        text="Six ranked families are enumerated completely inside their bounds, each case = load + render + formatting the error in five forms, in child processes under RLIMIT_AS with panics caught and aborts/signals attributed to the exact case: every string of up to 4 (thorough 5) fragments over a 24-fragment delimiter/quote/escape alphabet as template and as expression; every sequence of up to 3 (4) tags over 38 tags; every built-in and contrib filter/test/method x 8 receivers and every function x every argument tuple of arity <= 2 (3) over a 14-value boundary alphabet; 12 operators and 11 size-taking built-ins over all pairs of the edge value alphabet; 31 chain/nesting shapes at depths 150/151/2000/20000/200000 on the main thread and a 2 MiB thread in an opt-level-0 build (thorough also checked-release); every program of the depth-2 generator space with loop controls; 22 run-time value chains (a loop applies one lazy wrapping step - concatenation on either side, chain, slice, reverse, map, select, unique, dict merge, string and tuple concatenation, batch, zip - to an accumulator 33 / 1000 / 30 000 times, then the result is measured, iterated, compared, printed and dropped) in both builds; every string literal whose body is a sequence of at most 3 (4) pieces out of 28 escape forms; every format specification flags x width x precision x conversion x value (7 x 10 x 10 x 18 x 7, numbers up to 2^64) through the format filter and str.format; 15 kinds of objects that outlive the construct that made them (loop objects after exhaustion / break / recursion, caller, macros from loops and macros, self, namespaces, cycler, joiner) x 33 ways of using them afterwards. 1.5e6 cases quick.",
         note="A timeout is recorded as inconclusive, never as a crash. Native-stack findings for unguarded chain recursion, self-referential namespaces, very deep data and repeated lazy slicing are recorded known findings. Inputs beyond the fragment/arity bounds and argument values off the boundary alphabet are not explored.",
         design_ref="2/C01",
     ),
@@ -93,7 +93,7 @@ CHECKS = {
         level="exploration",
         engine="E1-enum",
         technique="bounded-exhaustive enumeration of programs rendered against a recording context object, compared with the static undeclared_variables report",
-        text="81 hand-enumerated assignment-bearing and expression forms (self-referential set, with, dotted set, unpacking, slices and subscripts of variables, macro defaults/bodies/closures, call blocks with arguments and defaults, loops reading their own target, set blocks with filters, autoescape expressions, filter blocks) and every program of the depth-2 generator space (quick: every 5th; thorough: all plus every 211th of depth 3) are rendered with an Object that records every key the engine asks it for, under all-keys, no-keys and every subset of up to 4 mentioned keys (so both arms of data-dependent control flow are taken); each recorded key must be in undeclared_variables(false) or be a global, and be the head of a path of undeclared_variables(true).",
+        text="81 hand-enumerated assignment-bearing and expression forms (self-referential set, with, dotted set, unpacking, slices and subscripts of variables, macro defaults/bodies/closures, call blocks with arguments and defaults, loops reading their own target, set blocks with filters, autoescape expressions, filter blocks) and every program of the depth-2 generator space (quick: every 5th; thorough: all plus every 211th of depth 3) are rendered with an Object that records every key the engine asks it for, under all-keys, no-keys and every subset of up to 4 mentioned keys (so both arms of data-dependent control flow are taken); each recorded key must be in undeclared_variables(false) or be a global, and be the head of a path of undeclared_variables(true). Further generated families: 14 constructs reading a name in their header x 8 ways of binding it at the top of their body, and every macro / call-block signature of up to 3 parameters whose defaults are absent, a literal, an outer name, an earlier or a later parameter, called with every number of arguments.",
         note="Debug info is switched off because a failing render re-reads every mentioned name for its error report. The engine-reserved names loop/self/super/caller/varargs/kwargs are not judged (the engine probes `loop` internally).",
         design_ref="2/C18",
     ),
@@ -101,7 +101,7 @@ CHECKS = {
         level="exploration",
         engine="E1-enum",
         technique="bounded-exhaustive enumeration of programs and of a registry-generated site table x 4 undefined behaviours, with a monotonicity relation between the four runs and a matrix oracle on direct sites",
-        text="Every program of the depth-2 generator space under 3 contexts (two with missing keys), a site table generated from the built-in registry (each of the 49 filters x 17 argument forms, 42 tests x 8, 4 functions x 6, 62 operator/statement forms, each with an undefined in every argument position) and 5 multi-template families are rendered under Strict, SemiStrict, Lenient and Chainable; whenever a mode succeeds every weaker mode must succeed with the identical output. 22 direct syntactic sites x 4 undefined spellings are compared with the documented matrix (print/iterate fail under Strict+SemiStrict, truth tests only under Strict, attribute/item access everywhere but Chainable, is defined / is undefined / default never), including the error kind. The undefined operand is spelled as a missing variable, a missing key, a missing attribute, an out-of-range index and as the value of an else-less conditional expression whose condition is false (printing, testing and iterating that one is exempt from errors in every mode; attribute, item and slice access on it must fail everywhere except Chainable, also after it was carried through set or a macro argument).",
+        text="Every program of the depth-2 generator space under 3 contexts (two with missing keys), a site table generated from the built-in registry (each of the 49 filters x 17 argument forms, 42 tests x 8, 4 functions x 6, 62 operator/statement forms, each with an undefined in every argument position) and 5 multi-template families are rendered under Strict, SemiStrict, Lenient and Chainable; whenever a mode succeeds every weaker mode must succeed with the identical output. 22 direct syntactic sites x 4 undefined spellings are compared with the documented matrix (print/iterate fail under Strict+SemiStrict, truth tests only under Strict, attribute/item access everywhere but Chainable, is defined / is undefined / default never), including the error kind. The undefined operand is spelled as a missing variable, a missing key, a missing attribute, an out-of-range index and as the value of an else-less conditional expression whose condition is false (printing, testing and iterating that one is exempt from errors in every mode; attribute, item and slice access on it must fail everywhere except Chainable, also after it was carried through set or a macro argument). The three sites that never fail (default, is defined, is undefined) are enumerated in ten further argument forms (default with its boolean flag, chained defaults, tests inside expressions, conditions and loop filters).",
         note="The relation is between whole renders; the matrix oracle is limited to sites where the undefined operand is used directly.",
         design_ref="2/C12",
     ),
@@ -125,7 +125,7 @@ CHECKS = {
         level="exploration",
         engine="E1-enum",
         technique="bounded-exhaustive enumeration of literal expressions x every subset of literal occurrences hoisted into variables (metamorphic literal/variable equivalence)",
-        text="All depth-1 expressions over 16 literals (incl. 2^63, 2^64-1, 2^127, 0.0, '', [], {}, none) x 18 binary operators, unary -/not, list/tuple/map displays and literal keyword arguments, and all depth-2 expressions ((a o b) o c, a o (b o c), comparison chains, nested displays) over a core pool; for each, every non-empty subset of literal occurrences is replaced by a context variable holding the value the lexer produced for that literal and the result (Ok/Err, kind and text) must equal the constant-folded all-literal form (1.1e6 evaluations quick, 7.2e6 thorough). Every constant expression that fails at run time must load and stay silent inside `{% if false %}`.",
+        text="All depth-1 expressions over 16 literals (incl. 2^63, 2^64-1, 2^127, 0.0, '', [], {}, none) x 18 binary operators, unary -/not, list/tuple/map displays (incl. two-entry maps over all pairs of 10 hashable literals, equal keys included) and literal keyword arguments, and all depth-2 expressions ((a o b) o c, a o (b o c), comparison chains, nested displays) over a core pool; for each, every non-empty subset of literal occurrences is replaced by a context variable holding the value the lexer produced for that literal and the result (Ok/Err, kind and text) must equal the constant-folded all-literal form (1.1e6 evaluations quick, 7.2e6 thorough). Every constant expression that fails at run time must load and stay silent inside `{% if false %}`.",
         note="The oracle is the engine's own run-time evaluation of the hoisted form (differential between folder and VM), so a defect shared by both is invisible here (C08 covers arithmetic). Sequence repetition by counts >= 2^31 is excluded (lazy and unprintable).",
         design_ref="2/C04",
     ),
@@ -133,7 +133,7 @@ CHECKS = {
         level="exploration",
         engine="E1-enum",
         technique="bounded-exhaustive enumeration of template names over the segment alphabet against a real directory tree with canaries outside the base",
-        text="Every name of up to 4 (quick) / 6 (thorough, 1.2e7 names) segments over the 15-segment alphabet of the quantifier ('', '.', '..', '...', hidden, trailing-dot, 'a..b', backslash forms, NUL, percent-encoded and unicode dot look-alikes, 300-character) is requested through get_template, include, extends and import (name computed inside the template) from a path_loader over a scratch tree; files inside the base carry IN:, canaries in the parent, grandparent and sibling directories carry OUT: under every name a traversal would reach. The loader's rule is a per-segment syntactic filter, and all sequences of segments up to the bound is exactly the space in which a missing case of that filter would show.",
+        text="Every name of up to 4 (quick) / 6 (thorough, 1.2e7 names) segments over the 15-segment alphabet of the quantifier ('', '.', '..', '...', hidden, trailing-dot, 'a..b', backslash forms, NUL, percent-encoded and unicode dot look-alikes, 300-character) is requested through get_template, include, extends and import (name computed inside the template) from a path_loader over a scratch tree; files inside the base carry IN:, canaries in the parent, grandparent and sibling directories carry OUT: under every name a traversal would reach. The loader's rule is a per-segment syntactic filter, and all sequences of segments up to the bound is exactly the space in which a missing case of that filter would show. Histories: one loader instance looks up every primer (all names of 1-2 segments, every pair of one-segment names, thorough also 3 segments, 11 slash spellings; through get_template and through include) and then each of 14 probes (inside, hidden, missing, names that exist relative to ancestors of the base); the answer must equal a fresh loader's.",
         note="Unix path semantics only; symbolic links are excluded by the property. The harness checks first that the canaries are readable through a loader rooted one level up (non-vacuity).",
         design_ref="2/C17",
     ),
@@ -141,7 +141,7 @@ CHECKS = {
         level="exploration",
         engine="E1-enum",
         technique="bounded-exhaustive enumeration of text/tag/marker sequences x 8 settings against an independent model of the whitespace rules; metamorphic delimiter rewriting of every program of the ranked generator space",
-        text="Every source `text tag text tag text` over a 14-text alphabet (blanks, LF, CRLF, brace and delimiter look-alikes) and 36 tags (variable, block, comment, raw x left/right marker in {none,-,+}) under all 8 settings (3.5e6 sources x 8; plus 34 tags written without blanks or, for comments, without any body - {{-v-}}, {%-set x = 1-%}, {#-c-#}, {#-#}, {#--#}, {##} - alone between all texts and next to every ordinary tag over the core texts; thorough adds three tags over a 6-text core alphabet, 4.8e8 cases) is rendered and compared byte for byte with an 80-line model that implements the rules exactly as the property words them (lstrip judged on the original source); every single raw block with all 81 inner/outer marker combinations x 6 contents is covered too. For delimiter independence every program of the depth-2 generator space (1.96e5 programs, 3 contexts) is rewritten token by token into 10 delimiter families (prefix-sharing, nested-prefix, single-brace, LaTeX, shared end marker, long, with line statement/comment prefixes) and must render identically; default-looking delimiters embedded as text must come out verbatim; line statements/comments are compared with the tag occupying the line for LF and CRLF.",
+        text="Every source `text tag text tag text` over a 14-text alphabet (blanks, LF, CRLF, brace and delimiter look-alikes) and 36 tags (variable, block, comment, raw x left/right marker in {none,-,+}) under all 8 settings (3.5e6 sources x 8; plus 34 tags written without blanks or, for comments, without any body - {{-v-}}, {%-set x = 1-%}, {#-c-#}, {#-#}, {#--#}, {##} - alone between all texts and next to every ordinary tag over the core texts; thorough adds three tags over a 6-text core alphabet, 4.8e8 cases) is rendered and compared byte for byte with an 80-line model that implements the rules exactly as the property words them (lstrip judged on the original source); every single raw block with all 81 inner/outer marker combinations x 6 contents is covered too. For delimiter independence every program of the depth-2 generator space (1.96e5 programs, 3 contexts) is rewritten token by token into 10 delimiter families (prefix-sharing, nested-prefix, single-brace, LaTeX, shared end marker, long, with line statement/comment prefixes) and must render identically; default-looking delimiters embedded as text must come out verbatim; line statements/comments are compared with the tag occupying the line for LF and CRLF. The whitespace rules are also checked under every delimiter set without line prefixes (one ordinary or compact tag between all pairs of core texts under all settings, two tags between blank texts under the two extreme settings) against the same delimiter-agnostic model.",
         note="Trusted: the whitespace model in c10.rs (calibrated: it agrees with the engine on all cases after two lexer fixes). Lone-CR line ends and non-ASCII blanks are outside the alphabet. Programs whose text would fuse with a delimiter of the target set are skipped for that set.",
         design_ref="2/C10",
     ),
@@ -165,7 +165,7 @@ CHECKS = {
         level="exploration",
         engine="E1-enum",
         technique="bounded-exhaustive enumeration of the complete (kind,len,start,stop,step) box against a transcribed CPython slice-index oracle",
-        text="Every point of the box the property quantifies over (10 kinds - ASCII and multi-byte strings in inline, shared-heap and safe-string storage, list, tuple, sized and unsized lazy iterable, bytes - x len 0..=6 x 22 start x 22 stop x 12 step values, literal and variable operand forms, plus all subscripts) is evaluated through Expression::eval and compared with Python's slice.indices semantics and the result-kind rule; the box contains every relation between bounds that the implementation's case analysis distinguishes, so a pass is a complete small-scope statement, not a sample.",
+        text="Every point of the box the property quantifies over (10 kinds - ASCII and multi-byte strings in inline, shared-heap and safe-string storage, list, tuple, sized and unsized lazy iterable, bytes, lazily concatenated / repeated / reversed lists - x len 0..=6 x 22 start x 22 stop x 12 step values, literal and variable operand forms, plus all subscripts) is evaluated through Expression::eval and compared with Python's slice.indices semantics and the result-kind rule; the box contains every relation between bounds that the implementation's case analysis distinguishes, so a pass is a complete small-scope statement, not a sample. Every slice result is also used as an operand: its |length, [-1], [-2:] and [::-1] must agree with the elements it produced.",
         note="Trusted: the 20-line transcription of PySlice_AdjustIndices in the harness. Bounds that do not fit i64 are rejected by the engine with an error and are outside the box.",
         design_ref="2/C09",
     ),
